@@ -72,7 +72,7 @@ static std::string symbolize(uint64_t pc) { char cmd[256]; snprintf(cmd, sizeof 
 static void setup(Runner &r, const Tier &t) {
     g_cfg.clear();
     struct F { std::string f; std::vector<std::string> tx; }; std::vector<F> fs = {
-        { gen_dir() + "/s_full.ttf", { "ab c\xCC\x81", "ca\xCC\x80 b", "de ab" } }, { "small.ttf", { "abc", "cab", "bca" } }, { gen_dir() + "/s_full.ttf", { "a\xF0\x90\x80\x80", "\xF0\x90\x90\x80" "b", "\xF0\x90\x80\x80" "c" } }   /* first lookups above U+FFFF (format 12 part of the cmap cache) on a cold shared face */, { gen_dir() + "/s_full_badglyph.ttf", { "ae f", "ea", "fe e" } }, { gen_dir() + "/s_full_pseudos.ttf", { "a\xE2\x80\xAA" "b\xE2\x80\xAB", "\xE2\x80\xAC" "c\xE2\x80\xAA", "\xE2\x80\xAD\xE2\x80\xAB" "d" } },    /* 12 pseudo-glyph characters; the texts use the late entries U+202A..U+202D */      /* one unreadable glyph: preloadAll must refuse it (then the case is vacuous) rather than fall back to loading on demand */
+        { gen_dir() + "/s_full.ttf", { "ab c\xCC\x81", "ca\xCC\x80 b", "de ab" } }, { "small.ttf", { "abc", "cab", "bca" } }, { gen_dir() + "/s_full.ttf", { "a\xF0\x90\x80\x80", "\xF0\x90\x90\x80" "b", "\xF0\x90\x80\x80" "c" } }   /* first lookups above U+FFFF (format 12 part of the cmap cache) on a cold shared face */, { gen_dir() + "/s_full_gmet.ttf", { "ab c\xCC\x81", "ca\xCC\x80 b", "dc ab" } }   /* a rule reads the face-level ascent / descent metrics (no OS/2 table in the font) */, { gen_dir() + "/s_full_badglyph.ttf", { "ae f", "ea", "fe e" } }, { gen_dir() + "/s_full_pseudos.ttf", { "a\xE2\x80\xAA" "b\xE2\x80\xAB", "\xE2\x80\xAC" "c\xE2\x80\xAA", "\xE2\x80\xAD\xE2\x80\xAB" "d" } },    /* 12 pseudo-glyph characters; the texts use the late entries U+202A..U+202D */      /* one unreadable glyph: preloadAll must refuse it (then the case is vacuous) rather than fall back to loading on demand */
         { "Padauk.ttf", { "\xE1\x80\x80\xE1\x80\xBB\xE1\x80\xBD\xE1\x80\x94\xE1\x80\xBA", "\xE1\x80\x99\xE1\x80\xBC\xE1\x80\x94\xE1\x80\xBA\xE1\x80\x80", "\xE1\x80\x80\xE1\x80\xAD\xE1\x80\xAF" } } };
     if (t.thorough) { fs.push_back({ "Scheherazadegr.ttf", { "\xD8\xA8\xD8\xB3\xD9\x85", "\xD8\xB3\xD9\x84\xD8\xA7\xD9\x85", "\xD9\x85\xD8\xA8" } }); fs.push_back({ "Awami_test.ttf", { "\xD9\xBE\xD8\xB3\xD8\xAA", "\xD8\xBA\xD9\x84\xD9\x8A", "\xD8\xB3\xD8\xAA" } }); fs.push_back({ "charis_r_gr.ttf", { "office", "fi\xCC\x81sh", "aff" } }); }
     for (auto &f : fs) for (int n : { 2, 3 }) { if (!t.thorough && n == 3 && f.f.find("Padauk") != std::string::npos) continue; for (int dir : { 0, 1 }) { if (!t.thorough && dir == 1 && n == 3) continue;
